@@ -27,7 +27,8 @@ CONFIG = dict(
                    "message list read through a fresh selection",
     rule="random histories of 8..35 commands on 1-4 connections sharing INBOX/B over APPEND, SELECT, CLOSE, UNSELECT, "
          "STORE(+/-/set, .SILENT), EXPUNGE, UID EXPUNGE, COPY, MOVE, FETCH(FLAGS / BODY[] marking \\Seen), SEARCH(seq set, "
-         "UID set, flags, RETURN), NOOP, IDLE..DONE (UID and non-UID forms; numbers, ranges, '*', beyond the count), "
+         "UID set, flags, RETURN), NOOP, IDLE..DONE (UID and non-UID forms; numbers, ranges, '*', beyond the count; command names, UID and RETURN "
+         "spelled in upper, lower or mixed case as a function of the op token), "
          "with check points (NOOP, UID FETCH 1:*, fresh view) in the middle and on every selected connection at the end, "
          "plus a corpus; non-trivial = at least two connections and an EXPUNGE or an EXISTS outside SELECT was received; "
          "distinct = different case line",
